@@ -15,3 +15,49 @@ for D in (1, 2, 3):
                     ' && '.join('%s == OLD(%s)' % (lp('self', k, x), lp('self', perm_rot[k], x)) for x in ('stride_', 'offset_', 'nelems_')))
                    for k in range(D)] + [('returns *this', 'RET == self')],
           assigns=['*self'], mode='exact')
+
+# ---------------------------------------------------------------------------------------------------------------------
+# shape queries of layout_t<D>: size, extension, num_elements, is_empty, strides, sizes  (C01: "agree with that shape")
+def Ln(D): return 'boost::multi::layout_t<%dl, long>' % D
+def TUP(D): return 'boost::multi::detail::tuple<%s>' % ','.join(['long']*D)
+
+for D in (1, 2, 3):
+    for zb in (True, False):
+        suf = '' if zb else '_b'; props = ['C01', 'C20'] if zb else ['C19', 'C20']
+        zreq = [' && '.join('g_f%d == 0' % k for k in range(D))] if zb else []
+        zlem = ['LEMMA_MUL0(%s)' % lp('self', k, 'stride_') for k in range(D)] if zb else []
+        Check('L%d_size%s' % (D, suf), props, 'layout', fn=Ln(D) + '::size() const', params=['self'],
+              wrapper=('multi::size_t', 'L<%d> const* self' % D, 'return self->size();'),
+              cxx={'self': LAY(D)}, ghosts=ghosts_fn(D), requires=[WF('self', D)] + zreq, lemmas=WF_lemmas('self', D, dims=[0]) + zlem,
+              ensures=[('size() is the extent of the leading dimension', 'RET == g_n0')], assigns=[], mode='uf')
+        Check('L%d_extension%s' % (D, suf), props, 'layout', fn=Ln(D) + '::extension() const', params=['self'],
+              wrapper=('multi::index_extension', 'L<%d> const* self' % D, 'return self->extension();'),
+              cxx={'self': LAY(D), 'RET': 'boost::multi::extension_t<long,long>'}, ghosts=ghosts_fn(D),
+              requires=[WF('self', D)] + zreq, lemmas=WF_lemmas('self', D, dims=[0]) + zlem,
+              ensures=[('extension() is [f0, f0+n0) (any empty range when n0 == 0)',
+                        'g_n0 == 0 ? RET.first_ == RET.last_ : (RET.first_ == g_f0 && RET.last_ == g_f0 + g_n0)')], assigns=[], mode='uf')
+        Check('L%d_is_empty%s' % (D, suf), props, 'layout', fn=Ln(D) + '::is_empty() const', params=['self'],
+              wrapper=('bool', 'L<%d> const* self' % D, 'return self->is_empty();'),
+              cxx={'self': LAY(D)}, ghosts=ghosts_fn(D), requires=[WF('self', D)] + zreq, lemmas=WF_lemmas('self', D, dims=[0]) + zlem,
+              ensures=[('is_empty() iff size() == 0', 'RET == (g_n0 == 0)')], assigns=[], mode='uf')
+    prod = 'g_n%d' % (D-1)
+    for k in range(D-2, -1, -1): prod = 'MUL(g_n%d, %s)' % (k, prod)
+    Check('L%d_num_elements' % D, ['C01', 'C19'], 'layout', fn=Ln(D) + '::num_elements() const', params=['self'],
+          wrapper=('multi::size_t', 'L<%d> const* self' % D, 'return self->num_elements();'),
+          cxx={'self': LAY(D)}, ghosts=ghosts_fn(D), requires=[WF('self', D), lp('self', D, 'nelems_') + ' == 1'],
+          lemmas=WF_lemmas('self', D) + ['LEMMA_MUL1(g_n%d)' % (D-1)],
+          ensures=[('num_elements() is the product of the extents', 'RET == %s' % prod)], assigns=[], mode='uf')
+    # strides(): tuple (stride_0, ..., stride_{D-1}); bit-precise
+    if D <= 2:
+        Check('L%d_strides' % D, ['C01', 'C19'], 'layout', fn=Ln(D) + '::strides() const', params=['self'],
+              wrapper=('multi::layout_t<%d>::strides_type' % D, 'L<%d> const* self' % D, 'return self->strides();'),
+              cxx={'self': LAY(D), 'RET': TUP(D)}, requires=['1'],
+              ensures=[('strides() lists the stride of every dimension in order',
+                        ' && '.join(('RET.head_#%d == %s' % (k, lp('self', k, 'stride_'))) if D > 1 else 'RET == self->stride_' for k in range(D)))],
+              assigns=[], mode='exact')
+    else:
+        Check('L%d_strides' % D, ['C01', 'C19'], 'layout', fn=Ln(D) + '::strides() const', params=['ret', 'self'],
+              wrapper=('void', 'multi::layout_t<%d>::strides_type* ret, L<%d> const* self' % (D, D), 'new(ret) multi::layout_t<%d>::strides_type(self->strides());' % D),
+              cxx={'self': LAY(D), 'ret': TUP(D)}, requires=['1'],
+              ensures=[('strides() lists the stride of every dimension in order', ' && '.join('ret->head_#%d == %s' % (k, lp('self', k, 'stride_')) for k in range(D)))],
+              assigns=['*ret'], mode='exact')
